@@ -1,5 +1,18 @@
 """Per-property claims; imported by tools/manifest.py."""
 
+BV = ("Lean 4.33 kernel; axioms propext/Classical.choice/Quot.sound plus one <theorem>._native.bv_decide.ax_* axiom per "
+      "bv_decide call (LRAT certificate checked by compiled code, ofReduceBool-style); ")
+TR = ("translator tools/translate (numba integer semantics = 64-bit two's complement, re-validated differentially against "
+      "the real numba kernels on every run); ")
+
 
 def register(claim):
-    pass
+    claim("C05", "proof",
+          "36 Lean theorems over BitVec 64 about the kernels regenerated from digi_id.py on every run: decode(encode f) = f "
+          "truncated to the field, tag/validity exclusivity, word->fields->word reproduces all defined bits, TOF one/two-"
+          "argument forms agree, casts lossless; signed and unsigned variants. Universal over all 64-bit inputs, which "
+          "subsumes every integer dtype under the widening semantics that the differential pass re-validates.",
+          BV + TR + "the oracle's closed-form layout tables in tools/checks/c05.py (hand-copied from the docs).",
+          "Lean 4 theorems (bv_decide) on a model regenerated from source by an AST translator; differential "
+          "translator validation vs numba; exhaustive field-space oracle on the real kernels as failing-input search",
+          "DESIGN.md §6 C05, §5.1")
